@@ -278,3 +278,45 @@ func SortedKeys[M ~map[string]V, V any](m M) []string {
 	sort.Strings(ks)
 	return ks
 }
+
+// TxLookupConsistent checks, for every known transaction id, that the repository finds it from the best head exactly
+// when one of the blocks containing it lies on best's chain, and that the meta then points to that block.
+// where: tx id -> ids of the blocks (anywhere in the tree, stored or not) that contain it.
+func TxLookupConsistent(repo *chain.Repository, where map[thor.Bytes32][]thor.Bytes32) error {
+	best := repo.BestBlockSummary()
+	c := repo.NewChain(best.Header.ID())
+	for id, blocks := range where {
+		var on *thor.Bytes32
+		for i := range blocks {
+			if block.Number(blocks[i]) > best.Header.Number() {
+				continue
+			}
+			if has, err := c.HasBlock(blocks[i]); err == nil && has {
+				on = &blocks[i]
+				break
+			}
+		}
+		meta, err := c.GetTransactionMeta(id)
+		switch {
+		case err != nil && !repo.IsNotFound(err):
+			return fmt.Errorf("tx %x: lookup error: %w", id.Bytes()[:4], err)
+		case err == nil && on == nil:
+			return fmt.Errorf("tx %x is reported at block #%d.%d but no block containing it is on the best chain", id.Bytes()[:4], meta.BlockNum, meta.BlockConflicts)
+		case err != nil && on != nil:
+			return fmt.Errorf("tx %x is on the best chain (block #%d) but not found by id", id.Bytes()[:4], block.Number(*on))
+		case err == nil && meta.BlockNum != block.Number(*on):
+			return fmt.Errorf("tx %x: meta points to block #%d, it is in #%d", id.Bytes()[:4], meta.BlockNum, block.Number(*on))
+		}
+		if err == nil {
+			if t, _, e := c.GetTransaction(id); e != nil {
+				return fmt.Errorf("tx %x: body unreadable: %w", id.Bytes()[:4], e)
+			} else if t.ID() != id {
+				return fmt.Errorf("tx %x: lookup returns another transaction (%x)", id.Bytes()[:4], t.ID().Bytes()[:4])
+			}
+			if _, e := c.GetTransactionReceipt(id); e != nil {
+				return fmt.Errorf("tx %x: receipt unreadable: %w", id.Bytes()[:4], e)
+			}
+		}
+	}
+	return nil
+}
